@@ -322,7 +322,7 @@ def _scan_cases(rng, tier):
         ]
     for bi, b in enumerate(bases):
         L = 200   # longer than every base value; positions are taken modulo the real length
-        reps = INTERESTING_BYTES if not (tier == "thorough" and bi < 2) else list(range(256))
+        reps = INTERESTING_BYTES if not (tier == "thorough" and bi < 4) else list(range(256))
         muts = [["none"]]
         n = {1: 60, 2: 100}[b["version"]] + 2 * len(b["name"].encode()) + 12
         for pos in range(n):
@@ -497,7 +497,7 @@ def _prim_case(rng):
 
 
 def gen_cases(rng, tier):
-    n = {"quick": 2600, "thorough": 45000, "search": 4000}[tier]
+    n = {"quick": 2600, "thorough": 120000, "search": 4000}[tier]
     _web()      # import tornado.web in the parent, before the workers are forked
     if tier in ("quick", "thorough"):
         yield from _scan_cases(rng, tier)
